@@ -548,6 +548,8 @@ def run_export(spec, noise, textdir, order_id=0):
     sim, tracer = simulate(block, stim, track='all' if opts['track_all'] else 'named')
     res['tracked_order'] = [w.name for w in tracer.wires_to_track]
     res['trace_keys'] = list(tracer.trace)
+    # the trace dict as it is (iteration order included): [name, bitwidth, values]
+    res['trace_items'] = [[k, tracer._wires[k].bitwidth, list(tracer.trace[k])] for k in tracer.trace]
     texts, changed = export_texts(block, tracer, opts, order)
     res['changed_on_second_call'] = changed
     texts['simulation_trace'] = json.dumps(sorted((k, list(v)) for k, v in tracer.trace.items()))
